@@ -46,10 +46,14 @@ class shapefactor_builder:
         moddata = self.collect(thismod, nom)
         self.builder_data[key][sample]['data']['mask'] += moddata['mask']
         if thismod:
-            self.required_parsets.setdefault(
-                thismod['name'],
-                [required_parset(defined_samp['data'], thismod['data'])],
+            # every distinct requirement is kept so that a parameter shared
+            # between channels of different sizes is reported as a conflict
+            requirement = required_parset(defined_samp['data'], thismod['data'])
+            requirements = self.required_parsets.setdefault(
+                thismod['name'], [requirement]
             )
+            if requirement not in requirements:
+                requirements.append(requirement)
 
     def finalize(self):
         return self.builder_data
